@@ -7,3 +7,12 @@ register('C01', 'translation_validation',
          "reals for floats; denominators != 0; program quantifier = bounded generated families; numpy library model "
          "validated per run; reference semantics trusted; known findings attributed only by proved defect models",
          "SMT translation validation of emitted code (symx + z3, QF_UFNRA)", "7/C01")
+register('C19', 'model_checking',
+         "The real DDEHistory class is executed symbolically (record times, record values and query time are z3 "
+         "reals; bisect's comparisons fork paths); on every feasible path z3 proves the returned value equals the "
+         "clamped piecewise-linear interpolant of the records, across 2-3 buffer-growth events, with the caller's "
+         "arrays overwritten after update, and for bounded histories that an update is either recorded or refused.",
+         "reals for floats; times strictly increasing; bounded number of updates (<=6 quick, <=12 thorough, 2100 with "
+         "concrete times); dtype=object stands for the float dtype; float() inside base_backend stubbed to identity on "
+         "symbols",
+         "symbolic execution of the real class (symx path exploration + z3)", "7/C19")
